@@ -13,7 +13,11 @@ CFG = {
                  "rendered with render_str in a child process, once on a 2 MiB thread and once on the 8 MiB main thread, 30 s per input; "
                  "outcome must be Ok or Err (exit by signal, panic - catch_unwind and panic hook -, or timeout = violation). Streams: hand-written "
                  "corner cases; every prefix and every single-character deletion of every snapshot-corpus template (sampled 1/6 in quick, all in "
-                 "thorough) and of 14 base templates; multi-byte characters next to every delimiter; 26 nesting constructs at 1..7, 19..21, 34..44, "
+                 "thorough) and of 14 base templates; 9 line-ending flavours (LF, CRLF, lone CR, LF CR, U+2028, U+0085, VT, FF, mixed) x 31 sources whose "
+                 "registration renders a source report (unknown filter/test/function/component/include, block missing from parent or grandparent "
+                 "- registered as a template set -, every syntax-error class) x error on the first/middle/last line x final terminator, with "
+                 "breaks before and inside tags, strings and comments, plus every corpus and hand-written source rewritten in each flavour; "
+                 "every Err is formatted with {}, {:?}, {:#?} and along source(); multi-byte characters next to every delimiter; 26 nesting constructs at 1..7, 19..21, 34..44, "
                  "80, 100, 1000, 10^5, everything-at-its-limit recipes, elif chains nested in the last elif / else branch of one another "
                  "(2..38 chains of 100..500 elifs); 27 chain constructs at 10..10^5; 400-digit numbers; unterminated strings/comments/raw/tags of 100 KB; "
                  "25 delimiter sets (14 accepted incl. 2-byte characters, `-`, quotes, whitespace; 11 rejected must return Err) x base templates "
